@@ -222,6 +222,9 @@ def run(rep: Report) -> None:
     rep.rule("R18.12", "prefix * logarithm: the result keeps the base and its prefix is the product of the logarithm's prefix and the new one "
              "(log-values add on every arm, Prefix.__mul__ interpreted)", floor=4)
     rep.rule("R18.6", "Level.__eq__ compares through quantify() on every arm", floor=2)
+    rep.rule("R18.15", "the two directions are real-valued formulas: no arm of LogarithmicUnit.level / Level.quantify (or of a private helper of "
+             "theirs) divides with // or %, or truncates with int / round / floor / ceil / trunc (3 B re 1 V is 10**1.5 V, not 10**1 V)", floor=2)
+    _no_truncation(rep, prog, resolver)
 
     # ---- level()
     fi = prog.func("LogarithmicUnit.level")
@@ -462,3 +465,41 @@ def run(rep: Report) -> None:
     rep.assume("in_unit is value-preserving (C04); ln/exp are inverse; B > 1")
     rep.not_decided.append("floating-point rounding of the (algebraically verified) formulas; Level.__add__/__sub__ (not part of the property)")
     rep.trust("mypy 2.3.1 expression types; E4 normal forms with ln/exp heads")
+
+
+def _no_truncation(rep: Report, prog: Program, resolver: Resolver) -> None:
+    """R18.15 (round 13, C18x): an 'exact integer' fast path `base ** (exponent // power_ratio)` is a different function
+    of the level wherever the division is not exact.  E4 judges the formula on the arms it can reach with its
+    abstract operands; an arm selected by the run-time type of the magnitude is not one of them, so the operators
+    themselves are checked: on every arm, none of them truncates."""
+    trunc = {"int", "round", "math.floor", "math.ceil", "math.trunc", "floor", "ceil", "trunc", "divmod"}
+    for q in ("LogarithmicUnit.level", "Level.quantify"):
+        fi = prog.func(q)
+        todo, seen = [q], set()
+        bad = []
+        n_fn = 0
+        while todo:
+            f = todo.pop()
+            if f in seen:
+                continue
+            seen.add(f)
+            ffi = prog.functions[f]
+            n_fn += 1
+            for x in Resolver._own_nodes(ffi.node):
+                if isinstance(x, ast.BinOp) and isinstance(x.op, (ast.FloorDiv, ast.Mod)) and not isinstance(x.left, (ast.Constant, ast.JoinedStr)):
+                    bad.append((ffi, x))
+                elif isinstance(x, ast.AugAssign) and isinstance(x.op, (ast.FloorDiv, ast.Mod)):
+                    bad.append((ffi, x))
+                elif isinstance(x, ast.Call) and ast.unparse(x.func) in trunc:
+                    bad.append((ffi, x))
+            for cs in resolver.callsites(f):
+                for t in cs.targets:
+                    tf = prog.functions.get(t)
+                    if tf is not None and tf.module == "" and tf.name.startswith("_") and not tf.name.startswith("__") and tf.cls in (None, ffi.cls):
+                        todo.append(t)
+        for ffi, x in bad:
+            rep.fail("R18.15", f"{q}:{ast.unparse(x)[:40]}", f"`{ast.unparse(x)[:60]}` in {ffi.qual} (on the path of {q}) truncates: the level/quantity "
+                     "relation is B**(L*p/k) with a true division - for a level the divisor does not divide (3 B re 1 V) the result is off by a "
+                     "factor of the base's root", ffi.where(x))
+        if not bad:
+            rep.ok("R18.15", q, note=f"{n_fn} function(s), no truncating operator")
